@@ -261,6 +261,8 @@ def install(dfols):
         real_change(self, k, x, rvec, eval_num, allow_kopt_update=allow_kopt_update)
         if t is not None:
             t.emit("chg", int(k), int(eval_num), 1 if allow_kopt_update else 0, fkey(self.objval[k]), t.src_of(rvec, first=True), int(self.kopt))
+            if t.control is not None:
+                t.emit("rad", float(t.control.delta), float(t.control.rho))
     Md.change_point = change
 
     real_sample = Md.add_new_sample
